@@ -234,8 +234,8 @@ func litElem(s Term, k string) (Term, bool) {
 	}
 }
 func emptyOf(seq Sort) Term { return mk(seq, "empty_%s", seq.sfx()) }
-func nilOf(seq Sort) Term   { return mk(seq, "nil_%s", seq.sfx()) }
-func isNilSeq(s Term) Term  { return mk(SBool, "(isnil_%s %s)", s.Sort.sfx(), s.S) }
+func nilOf(seq Sort) Term   { return emptyOf(seq) }
+
 
 func sel(arr Term, idx Term, res Sort) Term {
 	return mk(res, "(select %s %s)", arr.S, idx.S)
@@ -255,30 +255,26 @@ func seqPrelude(x string, seq, elem string, elemRange string) string {
 	w("(declare-fun cap_%X (%S) Int)")
 	w("(declare-fun at_%X (%S Int) %E)")
 	w("(declare-const empty_%X %S)")
-	w("(declare-const nil_%X %S)")
-	w("(declare-fun isnil_%X (%S) Bool)")
 	w("(declare-fun cat_%X (%S %S) %S)")
 	w("(declare-fun slice_%X (%S Int Int) %S)")
 	w("(declare-fun single_%X (%E) %S)")
 	w("(declare-fun upd_%X (%S Int %E) %S)")
 	w("(assert (= (len_%X empty_%X) 0))")
-	w("(assert (= (len_%X nil_%X) 0))")
-	w("(assert (isnil_%X nil_%X))")
-	w("(assert (not (isnil_%X empty_%X)))")
-	w("(assert (forall ((s %S)) (! (=> (isnil_%X s) (= (len_%X s) 0)) :pattern ((isnil_%X s)))))")
 	w("(assert (forall ((s %S)) (! (>= (len_%X s) 0) :pattern ((len_%X s)))))")
+	w("(assert (forall ((s %S)) (! (=> (= (len_%X s) 0) (= s empty_%X)) :pattern ((len_%X s)))))")
 	w("(assert (forall ((s %S)) (! (>= (cap_%X s) (len_%X s)) :pattern ((cap_%X s)))))")
 	w("(assert (forall ((a %S) (b %S)) (! (= (len_%X (cat_%X a b)) (+ (len_%X a) (len_%X b))) :pattern ((cat_%X a b)))))")
 	w("(assert (forall ((a %S) (b %S) (t Int)) (! (=> (and (<= 0 t) (< t (len_%X a))) (= (at_%X (cat_%X a b) t) (at_%X a t))) :pattern ((at_%X (cat_%X a b) t)))))")
 	w("(assert (forall ((a %S) (b %S) (t Int)) (! (=> (and (<= (len_%X a) t) (< t (+ (len_%X a) (len_%X b)))) (= (at_%X (cat_%X a b) t) (at_%X b (- t (len_%X a))))) :pattern ((at_%X (cat_%X a b) t)))))")
 	w("(assert (forall ((a %S)) (! (= (cat_%X a empty_%X) a) :pattern ((cat_%X a empty_%X)))))")
+	w("(assert (forall ((a %S) (b %S) (c %S)) (! (= (cat_%X (cat_%X a b) c) (cat_%X a (cat_%X b c))) :pattern ((cat_%X (cat_%X a b) c)))))")
 	w("(assert (forall ((a %S)) (! (= (cat_%X empty_%X a) a) :pattern ((cat_%X empty_%X a)))))")
 	w("(assert (forall ((a %S) (lo Int) (hi Int)) (! (=> (and (<= 0 lo) (<= lo hi)) (= (len_%X (slice_%X a lo hi)) (- hi lo))) :pattern ((slice_%X a lo hi)))))")
 	w("(assert (forall ((a %S) (lo Int) (hi Int) (t Int)) (! (=> (and (<= 0 t) (< t (- hi lo))) (= (at_%X (slice_%X a lo hi) t) (at_%X a (+ lo t)))) :pattern ((at_%X (slice_%X a lo hi) t)))))")
 	w("(assert (forall ((a %S)) (! (= (slice_%X a 0 (len_%X a)) a) :pattern ((slice_%X a 0 (len_%X a))))))")
 	w("(assert (forall ((e %E)) (! (and (= (len_%X (single_%X e)) 1) (= (at_%X (single_%X e) 0) e)) :pattern ((single_%X e)))))")
 	w("(assert (forall ((a %S) (i Int) (e %E)) (! (= (len_%X (upd_%X a i e)) (len_%X a)) :pattern ((upd_%X a i e)))))")
-	w("(assert (forall ((a %S) (i Int) (e %E) (t Int)) (! (= (at_%X (upd_%X a i e) t) (ite (= t i) e (at_%X a t))) :pattern ((at_%X (upd_%X a i e) t)))))")
+	w("(assert (forall ((a %S) (i Int) (e %E) (t Int)) (! (= (at_%X (upd_%X a i e) t) (ite (and (= t i) (<= 0 i) (< i (len_%X a))) e (at_%X a t))) :pattern ((at_%X (upd_%X a i e) t)))))")
 	if elemRange != "" {
 		w(elemRange)
 	}
